@@ -61,6 +61,7 @@ func main() {
 		ctx := &rules.Ctx{P: p, R: rep, Tier: *tier}
 		rs(ctx)
 		rules.NoSharedState(ctx, *prop)
+		rules.SharedUtilities(ctx, *prop)
 	}()
 	var extra map[string]any
 	if *extraFile != "" {
